@@ -348,7 +348,7 @@ structure InjAcc where
   used : List String := []
 
 def addFunctions (baseName : String) (acc : InjAcc) (fs : List SFunc) : InjAcc :=
-  (fs.filter SFunc.isPublic).foldl (fun acc f =>
+  (fs.filter fun f => f.isPublic && !f.isInternal).foldl (fun acc f =>
     let name := if acc.used.contains f.name then fmtRenamed baseName f.name else f.name
     let f' := { f with name, body := .field baseName f.name }
     { fns := acc.fns ++ [f'], used := name :: acc.used }) acc
